@@ -23,6 +23,7 @@ import numpy as np
 from commonroad.common.util import Interval
 from commonroad.geometry.shape import Circle, Rectangle
 from commonroad.planning.goal import GoalRegion
+from commonroad.prediction.prediction import TrajectoryPrediction
 from commonroad.planning.planning_problem import PlanningProblem, PlanningProblemSet
 from commonroad.scenario.intersection import Intersection, IntersectionIncomingElement
 from commonroad.scenario.lanelet import LaneletNetwork, StopLine
@@ -116,6 +117,12 @@ def build_defaults(case):
                 o = PhantomObstacle(o.obstacle_id)
             elif isinstance(o, EnvironmentObstacle):
                 o = EnvironmentObstacle(o.obstacle_id, o.obstacle_type, plain_shape(r, o.obstacle_shape))
+        elif isinstance(o, DynamicObstacle) and isinstance(o.prediction, TrajectoryPrediction) and flip():
+            # the prediction carries its own shape (the format has a field for it): e.g. the footprint plus a margin
+            s0 = o.prediction.shape
+            s1 = (Rectangle(s0.length + 0.8, s0.width + 0.6) if isinstance(s0, Rectangle)
+                  else Circle(s0.radius + 0.001) if isinstance(s0, Circle) else Rectangle(5.3, 2.6))
+            o.prediction = TrajectoryPrediction(o.prediction.trajectory, s1)
         sc2.add_objects(o)
     probs = []
     for p in pps.planning_problem_dict.values():
